@@ -24,6 +24,24 @@ REPO = os.environ.get("CRAB_REPO", "/repo")
 SCRATCH = os.environ.get("VERIF_SCRATCH", "/var/tmp")
 
 
+_REPO_KEY = []
+
+
+def _drop_cache(d):
+    """the facts extracted from a scratch copy are of no use once its check has run: remove them straight away
+    (never the cache of REPO itself) so that a whole self-test needs the room of `jobs` caches, not of one per entry"""
+    try:
+        sys.path.insert(0, VERIF) if VERIF not in sys.path else None
+        from crabcheck import facts
+        if not _REPO_KEY:
+            _REPO_KEY.append(facts._sha_tree(REPO)[0])
+        key = facts._sha_tree(d)[0]
+        if key != _REPO_KEY[0]:
+            shutil.rmtree(os.path.join(facts.CACHE_ROOT, key), ignore_errors=True)
+    except Exception:
+        pass
+
+
 def run_one(m):
     d = tempfile.mkdtemp(prefix="verif-selftest-", dir=SCRATCH)
     try:
@@ -65,6 +83,7 @@ def run_one(m):
             ok = p.returncode == 2
         return m, "OK" if ok else "FAIL", "exit %d\n%s" % (p.returncode, "\n".join(out.splitlines()[-12:]))
     finally:
+        _drop_cache(d)
         shutil.rmtree(d, ignore_errors=True)
 
 
